@@ -379,6 +379,21 @@ class SyncClientWorld(ClientWorld):
     def app_disconnect(self):
         return self.call(lambda: self.client.disconnect(), name='disconnect')
 
+    def app_burst(self, k, first, acc, then_disconnect=False):
+        """One application thread: k send() calls in a row (numbered from `first`, only while
+        connected; the accepted numbers are appended to acc), then optionally disconnect()."""
+        def go():
+            n = first
+            for _ in range(k):
+                if self.client.state != 'connected':
+                    continue
+                acc.append(n)
+                self.client.send(W.cli_payload('m%d' % n))
+                n += 1
+            if then_disconnect:
+                self.client.disconnect()
+        return self.call(go, name='burst')
+
     def app_wait(self):
         return self.call(lambda: self.client.wait(), name='wait')
 
@@ -608,6 +623,19 @@ class AsyncClientWorld(ClientWorld):
         async def go():
             await self.client.disconnect()
         return self.call(go, name='disconnect')
+
+    def app_burst(self, k, first, acc, then_disconnect=False):
+        async def go():
+            n = first
+            for _ in range(k):
+                if self.client.state != 'connected':
+                    continue
+                acc.append(n)
+                await self.client.send(W.cli_payload('m%d' % n))
+                n += 1
+            if then_disconnect:
+                await self.client.disconnect()
+        return self.call(go, name='burst')
 
     def app_wait(self):
         async def go():
